@@ -245,6 +245,12 @@ func (activeAuth *ActiveAuth) DoActiveAuth() (result *document.ActiveAuthResult,
 func ValidateActiveAuthSignature(dg15 *document.DG15, intAuthRspBytes, rndIfd []byte) (result *document.ActiveAuthResult, err error) {
 	var errContext string
 
+	// the challenge sent with INTERNAL AUTHENTICATE (RND.IFD) is exactly 8 bytes: a signature over a string of
+	// another length - e.g. from a recorded evidence file - is not a response to it
+	if len(rndIfd) != 8 {
+		return nil, fmt.Errorf("[ValidateActiveAuthSignature] challenge must be exactly 8 bytes, got %d", len(rndIfd))
+	}
+
 	var subPubKeyInfo cms.SubjectPublicKeyInfo
 
 	subPubKeyInfo, err = cms.Asn1decodeSubjectPublicKeyInfo(dg15.SubjectPublicKeyInfoBytes)
